@@ -1,2 +1,5 @@
 import PyModeS.Models
 import PyModeS.Properties.C07
+import PyModeS.Properties.C08
+import PyModeS.Properties.C09
+import PyModeS.Properties.C10
